@@ -5,7 +5,7 @@ CONSTANTS
   K = 1
   ReadBuf = 2
   InLen = 0
-  MaxOut = 4
+  MaxOut = 3
   MaxErr = 3
   MaxChunk = 2
   Limits <- L_123
@@ -15,5 +15,6 @@ CONSTANTS
   ShortIO = FALSE
   DeadlineCheck = TRUE
   CloseBeforeSend = TRUE
+  ClearOnErr = TRUE
 INVARIANT NoViolation EnvOk
 CONSTRAINT Bound
